@@ -75,6 +75,7 @@ static thread_local long g_stat_unwind_emits = 0;
 static thread_local long g_stat_operand_owned = 0;
 static thread_local long g_stat_insert = 0;
 static thread_local long g_stat_in_handler = 0;
+static thread_local long g_stat_failed_copy = 0;
 [[noreturn]] inline void throw_harness_exc(long salt)
 {
   ++g_stat_throws[salt % 3];
@@ -666,6 +667,62 @@ struct SigAccess : public sigc::signal_base
 
 using SlotI = sigc::slot<int(int)>;
 using SlotV = sigc::slot<void(int)>;
+
+// A functor whose copy constructor throws while armed: a connect() or a slot copy/assignment that has to copy it FAILS.
+// The library promises nothing new in that case, so the failed attempt must leave the signal / the destination slot
+// exactly as it was and leak nothing (variation without a model counterpart: the attempt is made in addition to, and
+// before, the operation the program asked for).
+struct ProbeCopyFailure
+{
+};
+static thread_local bool g_copy_probe_armed = false;
+template<typename R>
+struct ThrowOnCopy
+{
+  ThrowOnCopy() = default;
+  ThrowOnCopy(const ThrowOnCopy&)
+  {
+    if (g_copy_probe_armed)
+      throw ProbeCopyFailure();
+  }
+  ThrowOnCopy& operator=(const ThrowOnCopy&) = default;
+  R operator()(int) const { return R(); }
+};
+template<typename Slot>
+struct slot_result;
+template<typename R, typename... A>
+struct slot_result<sigc::slot<R(A...)>>
+{
+  using type = R;
+};
+template<typename Slot, typename Attempt>
+inline bool failed_copy_attempt(Attempt attempt)
+{
+  using R = typename slot_result<Slot>::type;
+  Slot ts{ThrowOnCopy<R>()};
+  g_copy_probe_armed = true;
+  bool threw = false;
+  try
+  {
+    attempt(ts);
+  }
+  catch (ProbeCopyFailure&)
+  {
+    threw = true;
+  }
+  g_copy_probe_armed = false;
+  ++g_stat_failed_copy;
+  return threw;
+}
+inline void check_failed_copy(bool threw, bool unchanged, const char* what)
+{
+  if (!threw || !unchanged)
+  {
+    std::fprintf(stderr, "harness: a %s whose functor copy throws %s\n", what,
+                 !threw ? "did not propagate the exception" : "changed its destination");
+    std::abort();
+  }
+}
 using SigV = sigc::signal<void(int)>;
 using SigI = sigc::signal<int(int)>;
 using SigA = sigc::signal<int(int)>::accumulated<StratAcc>;
@@ -1422,6 +1479,15 @@ struct Interp
         return "busy";
       if (dst->taint < src->taint)
         dst->taint = src->taint;
+      if (op == "asgS" && (idx(w[1]) + 2 * idx(w[2])) % 4 == 2)
+      {
+        // a failing copy assignment first (see ThrowOnCopy): the destination keeps its functor, its state and its parent
+        sigc::slot_base* d = dst->base();
+        const bool e = d->empty(), b = d->blocked();
+        const bool threw = dst->isVoid ? failed_copy_attempt<SlotV>([&](SlotV& ts) { *dst->sv = ts; })
+                                       : failed_copy_attempt<SlotI>([&](SlotI& ts) { *dst->si = ts; });
+        check_failed_copy(threw, d->empty() == e && d->blocked() == b, "copy assignment of a slot");
+      }
       if (dst->isVoid)
       {
         SlotV& d = *dst->sv; // (one local reference: the compiler must see that both tests are on the same object)
@@ -1672,6 +1738,18 @@ struct Interp
         using Sig = std::remove_reference_t<decltype(sig)>;
         using Slot = typename Sig::slot_type;
         Slot& sl = *reinterpret_cast<Slot*>(s->isVoid ? static_cast<void*>(s->sv) : static_cast<void*>(s->si));
+        if ((k + 2 * idx(w[3])) % 4 == 1)
+        {
+          // a failing connect first (see ThrowOnCopy)
+          const auto before = sig.size();
+          const bool threw = failed_copy_attempt<Slot>([&](Slot& ts) {
+            if (first)
+              sig.connect_first(ts);
+            else
+              sig.connect(ts);
+          });
+          check_failed_copy(threw, sig.size() == before, first ? "connect_first() of a slot" : "connect() of a slot");
+        }
         // variation without a model counterpart: every third connect of a slot variable goes through the protected
         // signal_base::insert(position, slot) at begin()/end(), which is what connect_first()/connect() are
         if ((k + idx(w[3])) % 3 == 0)
@@ -2521,7 +2599,8 @@ int main(int argc, char** argv)
               << " throws_runtime_error=" << g_stat_throws[2] << " emissions_during_unwinding=" << g_stat_unwind_emits
               << " operands_owned_by_a_functor=" << g_stat_operand_owned
               << " connects_through_protected_insert=" << g_stat_insert
-              << " operations_inside_a_catch_handler=" << g_stat_in_handler << "\n";
+              << " operations_inside_a_catch_handler=" << g_stat_in_handler
+              << " failed_copy_attempts=" << g_stat_failed_copy << "\n";
     return 0;
   }
   // C19: every program in its own thread, started behind a barrier, disjoint object graphs
